@@ -227,7 +227,20 @@ def r07c(P, R):
     # sort (other than by position), a reversal, a de-duplication or a hashed / ordered-by-key collection
     moved = 0
     for key, rec in sorted(got.items()):
-        for op, loc in sorted(rec.get("ops", {}).items()):
+        ops = dict(rec.get("ops", {}))
+        halves = {}
+        for op in list(ops):
+            if op.startswith("partition:"):
+                halves.setdefault(op.rsplit(":", 1)[0], []).append((op, ops.pop(op)))
+        for pid, hs in sorted(halves.items()):
+            moved += 1
+            if len(hs) >= 2:
+                R.violated("R07-c", "order:" + key, "`%s` is re-assembled from both halves of a `partition` of the built elements: the elements are "
+                           "regrouped by content, so they are no longer in the order in which the text lists them" % key, loc=hs[0][1])
+            else:
+                R.undecided("R07-c", "order:" + key, "`%s` receives one half of a `partition` of the built elements: whether the other half is "
+                            "kept elsewhere is not decided" % key, loc=hs[0][1])
+        for op, loc in sorted(ops.items()):
             moved += 1
             R.violated("R07-c", "order:" + key, "`%s` passes through `%s` on its way from the parsed pairs: its elements are no longer (all) in the order "
                        "in which the text lists them, so the document the parser yields is not the one the text denotes" % (key, op), loc=loc)
@@ -539,6 +552,16 @@ def _pos_conversion(P, tp):
         return None
     a0, a1 = arg(calls[0]["args"][0]), arg(calls[0]["args"][1])
     if a0 is None or a1 is None:
+        # not the line_col() shape.  The column of a Pos is a character column (pest's line_col()); a distance between byte offsets
+        # (span.start(), str::len(), find/rfind indices) is a different unit as soon as a non-ASCII character precedes the token on its line
+        pv = Prov(tp)
+        used = {a[1].split("::")[-1] for a in pv.atoms(calls[0]["args"][1]) if a[0] == "call"}
+        byteish = used & {"start", "end", "len", "rfind", "find", "as_bytes", "bytes", "pos", "start_pos", "end_pos", "offset", "byte_offset",
+                          "match_indices", "rmatch_indices"}
+        charish = used & {"line_col", "chars", "char_indices", "graphemes", "width", "encode_utf16"}
+        if byteish and not charish:
+            return "bad", ("to_pos computes the column from byte offsets (%s) instead of pest's line_col(): for a token preceded on its line by a "
+                           "non-ASCII character the column counts UTF-8 bytes, not characters, so the position is not the true one" % sorted(byteish))
         return "unknown", "the arguments of Pos::new in to_pos are not `component - literal` of pair.line_col()"
     if a0 == (0, "1") and a1 == (1, "1"):
         return "ok", "Pos::new(line - 1, column - 1) from pair.line_col()"
